@@ -57,6 +57,65 @@ def run_cvc5(smt2, timeout_ms):
         os.unlink(path)
 
 
+def _seq_terms(exprs, limit=400):
+    """sub-terms of sequence sort that are not built by sequence operators (variables, selects, UF applications)"""
+    seen = set()
+    out = []
+    work = list(exprs)
+    while work and len(seen) < 20000:
+        e = work.pop()
+        i = e.get_id()
+        if i in seen:
+            continue
+        seen.add(i)
+        if z3.is_app(e):
+            k = e.decl().kind()
+            if e.sort().kind() == z3.Z3_SEQ_SORT and k in (z3.Z3_OP_UNINTERPRETED, z3.Z3_OP_SELECT) and len(out) < limit:
+                out.append(e)
+            work.extend(e.children())
+        elif z3.is_quantifier(e):
+            work.append(e.body())
+    return out
+
+
+def bounded_model_search(assumptions, goal, timeout_ms, bound=3):
+    """refutation only: look for a counter-model in which every sequence/string variable is short.
+    Sequences of non-character elements are made explicit (a concatenation of `n` unit sequences over fresh
+    element constants, n <= bound), strings get a length bound.  Adding constraints can only lose models, so
+    `sat` here is a genuine counterexample."""
+    import itertools
+    terms = _seq_terms(list(assumptions) + [goal])
+    strs = [t for t in terms if t.sort() == z3.StringSort()]
+    seqs = [t for t in terms if t.sort() != z3.StringSort()][:3]
+    last = (z3.unknown, None)
+    for lens in itertools.product(range(bound + 1), repeat=len(seqs)):
+        s = z3.Solver()
+        s.set("timeout", timeout_ms)
+        subst = []
+        for t, n in zip(seqs, lens):
+            es = [z3.Const("bms!%d!%d" % (t.get_id(), i), t.sort().basis()) for i in range(n)]
+            if n == 0:
+                expl = z3.Empty(t.sort())
+            elif n == 1:
+                expl = z3.Unit(es[0])
+            else:
+                expl = z3.Concat(*[z3.Unit(e) for e in es])
+            subst.append((t, expl))
+        # the explicit sequences are substituted (so that contains / index / length simplify away) and also
+        # asserted as equalities (so that the model still interprets the original terms)
+        for x in list(assumptions) + [z3.Not(goal)]:
+            s.add(z3.simplify(z3.substitute(x, *subst)) if subst else x)
+        for t, expl in subst:
+            s.add(t == expl)
+        for t in strs:
+            s.add(z3.Length(t) <= 2 * bound + 2)
+        r = s.check()
+        last = (r, s)
+        if r == z3.sat:
+            return last
+    return last
+
+
 def discharge(ob, timeout_ms=10000, use_cvc5=True, extract=None, max_models=1):
     """-> Result.  `extract(model, case)` turns a z3 model into a python-level witness."""
     r = Result(ob)
@@ -104,6 +163,13 @@ def discharge(ob, timeout_ms=10000, use_cvc5=True, extract=None, max_models=1):
                 return r
         if res == z3.unsat:
             continue
+        if res == z3.unknown:
+            for bound in (3,):
+                r2, s2 = bounded_model_search(assumptions, goal, min(timeout_ms, 3000), bound)
+                if r2 == z3.sat:
+                    res, s = z3.sat, s2
+                    r.backend = "z3 (short-sequence model search)"
+                    break
         if res == z3.unknown:
             status = "undecided"
             r.note = "solver: %s (%s)" % (s.reason_unknown(), note)
